@@ -29,7 +29,7 @@ def scenarios(rng, tier):
     for j in range(2 if tier == 'quick' else 6):
         s.start('floodq_%d' % j); s.lines.append('cfg 0 mtu=%d' % rng.choice([576, 1500]))
         s.frame(0, discover(M, gen=1))
-        for i in range(1500):
+        for i in range(max(1500, 2 * cap + 500) if cap else 1500):
             s.frame(0, probe(mac(1000 + i), own, mac(1000 + i), own))
             if rng.random() < 0.01: s.frame(0, query(M, own, seq=2 + i))
             if rng.random() < 0.002: s.frame(0, reset(M)); s.frame(0, discover(M, gen=1))
@@ -60,6 +60,10 @@ def oracle(name, ib, mb, meta):
             elif d['opc'] == 8: pend[ctx].clear(); iconseen.discard(ctx)
         if d['tos'] in (0, 1) and d['opc'] == 0x0B and d['seq'] != 0 and d['body'][0] == 14 and hasicon: iconseen.add(ctx)
         live = int(b.kv.get('live', 0)); lives.append(live)
+        capf = V.facts().get('LLTD_SEE_LIST_MAX', 0)
+        if capf and live > len(rec) * (2 + capf):
+            fails.append((i, '%d allocations live: more than the fixed bound of %d per interface record (record + %d observations + icon) that the retained state is proved to obey' % (live, 2 + capf, capf)))
+            break
         bound = len(rec) + sum(len(p) for p in pend.values()) + len(iconseen)
         if live > bound:
             fails.append((i, '%d allocations live after "%s..." although at most %d can be part of the retained state (%d records, %d pending observations, %d cached icons): a buffer was not released' % (
